@@ -1,6 +1,7 @@
 //! `mc` — bounded exhaustive exploration of the real ruschm interpreter (see /verif/DESIGN.md).
 pub mod drive;
 pub mod enumerate;
+pub mod explore;
 pub mod numgrid;
 pub mod par;
 pub mod props;
